@@ -279,11 +279,13 @@ def coq_methods(desc):
     return coq.lst(out)
 
 
-def coq_table(desc, selective):
-    """API.all_methods of the API object the templates see: the proto's table after the allow-list (Model.visible_methods)."""
+def coq_table(desc, selective, table=None):
+    """API.all_methods of the API object the templates see: the proto's table after the allow-list (Model.visible_methods).
+    table: name of a Coq definition holding coq_methods(desc) (keeps the check terms small)."""
+    mt = table or coq_methods(desc)
     if not selective:
-        return coq_methods(desc)
-    return f"(visible_methods {coq.slist(selective['methods'])} {coq.b(selective['internal'])} {coq_methods(desc)})"
+        return mt
+    return f"(visible_methods {coq.slist(selective['methods'])} {coq.b(selective['internal'])} {mt})"
 
 
 def coq_settings(settings):
@@ -438,7 +440,7 @@ def run_validation(ctx, n_apis, per_api, seed_tag="C18-val", cli_every=7, full_f
             req = gen.with_params(apigen.request(files), ["transport=grpc"], cd, service_yaml=service_yaml(settings, selective))
             cases.append({"kind": kind, "desc": desc, "settings": settings, "selective": selective, "req": req, "api": a})
     outs = []
-    chunks = [cases[i:i + 24] for i in range(0, len(cases), 24)]
+    chunks = [cases[i:i + 14] for i in range(0, len(cases), 14)]
     for part in gen.pmap(lambda ch: gen.impl("msettings", [{"request_b64": apigen.req_b64(c["req"])} for c in ch]), chunks):
         outs += part
     cli = [c for i, c in enumerate(cases) if i % cli_every == 0]
@@ -458,7 +460,7 @@ def run_validation(ctx, n_apis, per_api, seed_tag="C18-val", cli_every=7, full_f
             continue
         seltxt = "" if not selective else f" selective={[x.replace(PKG + '.', '') for x in selective['methods']]}/{'internal' if selective['internal'] else 'pruning'}"
         label = f"api#{c['api']} {c['kind']}{seltxt} settings={json.dumps([[e['selector'].replace(PKG + '.', ''), e.get('auto_populated_fields')] for e in settings])} impl={json.dumps(o)[:240]}"
-        checks.append((label, f"outcome_eqb (enforce {coq_table(desc, selective)} {coq_settings(settings)}) {coq_outcome(o)}"))
+        checks.append((label, f"outcome_eqb (enforce {coq_table(desc, selective, 'MT_' + str(c['api']))} {coq_settings(settings)}) {coq_outcome(o)}"))
         # ---- direct oracle ----
         verdict = spec_verdict(desc, settings, selective)
         failed = o["outcome"] != "accepted"
@@ -485,7 +487,11 @@ def run_validation(ctx, n_apis, per_api, seed_tag="C18-val", cli_every=7, full_f
                    f"cli={'ok' if res is not None else kindname} impl={json.dumps(o)[:200]}")
         if spec_verdict(c["desc"], c["settings"], c["selective"]) == "must-fail" and res is not None and not only_gap_is_repeated(c["desc"], c["settings"], c["selective"]):
             pending.append((None, f"the generator produced a library for method settings that must be rejected: {json.dumps(c['settings'])}", c["case"]))
-    failing, errors, nfiles = coq.eval_checks("c18val" + re.sub(r"\W", "", seed_tag), IMPORTS, "", checks)
+    tables = {}
+    for c in cases:
+        tables.setdefault(c["api"], c["desc"])
+    defs = "\n".join(f"Definition MT_{a} := {coq_methods(d)}." for a, d in tables.items())
+    failing, errors, nfiles = coq.eval_checks("c18val" + re.sub(r"\W", "", seed_tag), IMPORTS, defs, checks)
     ctx.oblige(f"T2 validation: Model.enforce = enforce_valid_method_settings (outcome and error report) on {len(checks)} settings lists ({nfiles} cases files)",
                not failing and not errors and len(checks) > 0, "; ".join((failing + errors)[:5]))
     ctx.notes.setdefault("validation_disagreements", []).extend(failing[:10])
@@ -543,7 +549,19 @@ def call_api(r, index=0):
                         "auto": auto if listed else [], "selector": f"{PKG}.Library.{rpc}", "path": f"/{PKG}.Library/{rpc}", "where": where,
                         "types_mod": "google.example.library_v1.common.types" if where == "common" else "google.example.library_v1.types"})
     r.shuffle(settings)
-    return [common, main], methods, settings
+    # Selective GAPIC generation with generate_omitted_as_internal: the omitted methods stay in the clients as `_<name>` and
+    # their method settings still apply.  Every other library omits its first method (which always has settings) and possibly more.
+    selective = None
+    for m in methods:
+        m["client_name"] = m["snake"]
+    if index % 2 == 1:
+        omitted = [methods[0]] + [m for m in methods[1:-1] if r.random() < 0.5]
+        allow = [m["selector"] for m in methods if m not in omitted]
+        selective = {"methods": allow, "internal": True}
+        for m in omitted:
+            m["client_name"] = "_" + m["snake"]
+            m["internal"] = True
+    return [common, main], methods, settings, selective
 
 
 def snake(s):
@@ -593,7 +611,7 @@ def caller_states(r, m):
     opt = {f["name"] for f in m["fields"] if f["optional"]}
     states = [{n: None for n in ids}, {n: "" for n in ids}, {n: f"mine-{n}" for n in ids},
               {n: ("" if n in opt else None) for n in ids}]      # proto3-optional fields explicitly set to "": must be left alone
-    for _ in range(2):
+    for _ in range(1):
         states.append({n: r.choice([None, None, "", "given-" + n, "1b4e28ba-2fa1-4d3b-a3f5-ef19b5a7633b"]) for n in ids})
     return states
 
@@ -629,12 +647,13 @@ def sent_value_rest(m, h, name):
 def eval_call(ctx, D, i, b64, settings, c, res, checks, pending, generated):
     """Oracle + Coq terms for one driven call (all its repeats)."""
     m, st, kind = c["m"], c["state"], c["kind"]
-    case = {"kind": "call", "request_b64": b64, "settings": settings, "spec": c["spec"], "state": st, "method": m}
+    case = {"kind": "call", "request_b64": b64, "settings": settings, "selective": m.get("selective"), "spec": c["spec"], "state": st, "method": m}
     ctx.case({"lib": i, "rpc": m["rpc"], "kind": kind, "mode": c["mode"], "state": st, "auto": m["auto"]},
              feature=[f"call-{kind}", f"mode-{c['mode']}", "auto-listed" if m["auto"] else "method-without-settings",
                       f"request-message-in-{m.get('where', 'same')}-package-{kind}" if m["auto"] else "request-unlisted",
+                      f"internal-method-with-settings-{kind}" if m.get("internal") and m["auto"] else "public-method",
                       "http-body-" + str(m["body"])])
-    label = f"lib#{i} {m['rpc']} (request message in {'sub-package common' if m.get('where') == 'common' else 'the service package'}) {kind} {c['mode']} auto={m['auto']} state={json.dumps(st)}"
+    label = f"lib#{i} {m.get('client_name', m['rpc'])} (request message in {'sub-package common' if m.get('where') == 'common' else 'the service package'}) {kind} {c['mode']} auto={m['auto']} state={json.dumps(st)}"
     if not res.get("ok"):
         pending.append((None, f"{label}: the call raised {res.get('error')}", case))
         return
@@ -707,9 +726,11 @@ def run_calls(ctx, n_libs, seed_tag="C18-lib"):
     jobs = []
     for i in range(n_libs):
         r = env.rng(seed_tag, i)
-        files, methods, settings = call_api(r, i)
+        files, methods, settings, selective = call_api(r, i)
         cd = gen.case_dir(f"c18lib{seed_tag}{i}")
-        req = gen.with_params(apigen.request(files), ["transport=grpc+rest"], cd, service_yaml=service_yaml(settings))
+        req = gen.with_params(apigen.request(files), ["transport=grpc+rest"], cd, service_yaml=service_yaml(settings, selective))
+        for m in methods:
+            m["selective"] = selective
         jobs.append((i, req, methods, settings, files))
     results = gen.pmap(lambda j: gen.run_generator(j[1]), jobs)
     checks, pending, drives, defs = [], [], [], []
@@ -721,15 +742,17 @@ def run_calls(ctx, n_libs, seed_tag="C18-lib"):
         fs = gen.files_of(res)
         S = coq_settings(settings)
         # ---- T1: emitted blocks of both clients = model ----
-        for fname, cls, is_async in (("client.py", "LibraryClient", False), ("async_client.py", "LibraryAsyncClient", True)):
+        base = "Base" if any(m.get("internal") for m in methods) else ""      # a service with internal methods is emitted as Base<Service>Client
+        for fname, cls, is_async in (("client.py", base + "LibraryClient", False), ("async_client.py", base + "LibraryAsyncClient", True)):
             path = next((n for n in fs if n.endswith("/services/library/" + fname)), None)
             try:
-                blocks = extract_blocks(fs[path], cls, [m["snake"] for m in methods])
+                blocks = extract_blocks(fs[path], cls, [m["client_name"] for m in methods])
+                blocks = {m["snake"]: blocks[m["client_name"]] for m in methods}
             except Exception as e:  # noqa
                 ctx.oblige(f"lib#{i}: T1 extraction of the population blocks from {fname}", False, repr(e), "T1")
                 continue
             for m in methods:
-                checks.append((f"lib#{i} {cls}.{m['snake']} (request message in {m['where']} package) emitted population {blocks[m['snake']]} settings={json.dumps(settings)[:200]}",
+                checks.append((f"lib#{i} {cls}.{m['client_name']} (request message in {m['where']} package{', omitted by selective generation and kept as internal' if m.get('internal') else ''}) emitted population {blocks[m['snake']]} settings={json.dumps(settings)[:200]}",
                                f"lines_opt_eqb (option_map blocks_lines BS{'a' if is_async else 's'}_L{i}_{m['rpc']}) {coq.slist(blocks[m['snake']])}"))
         root = gen.materialize(res, gen.case_dir(f"c18root{seed_tag}{i}"))
         D = dyn.Dyn(req)
@@ -742,7 +765,7 @@ def run_calls(ctx, n_libs, seed_tag="C18-lib"):
                 for n, v in st.items():
                     if v is not None:
                         setattr(msg, n, v)       # optional '' keeps presence; plain '' is the default
-                for kind, client in (("grpc", "LibraryClient"), ("grpc_asyncio", "LibraryAsyncClient"), ("rest", "LibraryClient")):
+                for kind, client in (("grpc", base + "LibraryClient"), ("grpc_asyncio", base + "LibraryAsyncClient"), ("rest", base + "LibraryClient")):
                     modes = ["message", "dict"]
                     if all(v is None for v in st.values()):
                         modes.append("kwargs" if m["sig"] else "message")
@@ -750,7 +773,7 @@ def run_calls(ctx, n_libs, seed_tag="C18-lib"):
                     rq = {"mode": mode, "cls": f"{m['types_mod']}:{m['rpc']}Request", "b64": dyn.Dyn.b64(msg)}
                     if mode == "kwargs":
                         rq["kwargs"] = list(m["sig"])
-                    calls.append({"spec": {"service_module": "library", "client": client, "transport": kind, "method": m["snake"], "request": rq,
+                    calls.append({"spec": {"service_module": "library", "client": client, "transport": kind, "method": m["client_name"], "request": rq,
                                            "repeat": r.choice([2, 3]), "http_default": {"status": 200, "body": "{}"}},
                                   "m": m, "state": st, "kind": kind, "mode": mode})
         drives.append((i, req, methods, settings, root, D, calls))
@@ -777,6 +800,9 @@ def run_calls(ctx, n_libs, seed_tag="C18-lib"):
                 if not ctx.features.get(f"request-message-in-{w}-package-{k}")]
     ctx.oblige("inputs: auto-populated methods whose request message lives in the service package AND in another package of the API were called "
                "through the sync, asyncio and REST paths", not nolayout or not drives, f"missing: {nolayout}", "T2")
+    nointernal = [k for k in ("grpc", "grpc_asyncio", "rest") if not ctx.features.get(f"internal-method-with-settings-{k}")]
+    ctx.oblige("inputs: an auto-populated method OMITTED by selective generation and kept as internal (_name) was called through the sync, asyncio "
+               "and REST paths", not nointernal or len(drives) < 2, f"paths without such a call: {nointernal}", "T2")
     missing = [k for k in ("grpc", "grpc_asyncio", "rest") if not ctx.features.get(f"optional-set-empty-listed-{k}")]
     ctx.oblige("inputs: a listed proto3-optional field explicitly set to the empty string was sent through the sync, asyncio and REST paths",
                not missing or not drives, f"paths without such a call: {missing}", "T2")
@@ -908,7 +934,7 @@ def layout_settings(r, desc, full):
         ("duplicate", [good_lib, dict(good_lib)]), ("duplicate", [good_adm, good_lib, {"selector": sel["CreateThing"], "auto_populated_fields": []}]),
     ]
     if not full:
-        out = out[:5] + r.sample(out[5:], 8)
+        out = out[:3] + r.sample(out[3:], 4)
     return out
 
 
@@ -1017,8 +1043,8 @@ def report(ctx, pending):
 
 def run(ctx):
     pending = []
-    pending += run_validation(ctx, ctx.n(4, 40), ctx.n(24, 48))
-    pending += run_calls(ctx, ctx.n(4, 30))
+    pending += run_validation(ctx, ctx.n(3, 40), ctx.n(16, 48))
+    pending += run_calls(ctx, ctx.n(3, 30))
     pending += run_layouts(ctx)
     pending += witness_repeated(ctx)
     pending += witness_oneof(ctx)
@@ -1057,7 +1083,7 @@ def replay(ctx, rep):
             print("replay: the oracle no longer fails on this case")
     elif c.get("kind") == "call" and "spec" in c:
         files_req = apigen.req_from_b64(c["request_b64"])
-        req = gen.with_params(files_req, ["transport=grpc+rest"], gen.case_dir("c18replay"), service_yaml=service_yaml(c["settings"]))
+        req = gen.with_params(files_req, ["transport=grpc+rest"], gen.case_dir("c18replay"), service_yaml=service_yaml(c["settings"], c.get("selective")))
         res, err = gen.run_generator(req)
         if res is None:
             ctx.oblige("replay: generation succeeds", False, err[-500:])
